@@ -79,7 +79,8 @@ CHECKS = {
         "free_standing_none, projectParent_has_toml (Props/C17.lean). Tie: project trees on disk (application, registry and path dependencies, nested "
         "module directories, equal module names, transitive edges, a free-standing file): module_name, find_gleam_project_parent, lower_vfs, "
         "assemble_graph through the verif wrappers vs the model vs the layout by construction; the real binary is asked for definitions across "
-        "packages (direct dependencies resolve, transitive ones must not, externals are not renameable). PARTIAL: directory walking and TOML parsing "
+        "packages (direct dependencies resolve, transitive ones must not, externals are not renameable), in sessions with several package roots, with a dependency "
+        "module opened first, with the manifest changed and re-read, and with dependency chains across graph rebuilds. PARTIAL: directory walking and TOML parsing "
         "are not modelled; visible_modules / import resolution is covered end-to-end only."),
   note=TB + "The filesystem enters the model as the set of directories that contain a gleam.toml.", ref="5.C17, 4.7"),
  "C15": dict(
@@ -89,8 +90,9 @@ CHECKS = {
         "the u32 size limit), step_normal, one_answer_per_request, unappliable_dropped (after a didChange the document is the result of ALL its "
         "changes or absent) (Props/C15.lean). Tie: seeded sequences over 5 documents (package files, free-standing file, untitled:, never "
         "opened) with valid and invalid changes/positions are sent to the real binary; liveness after every message, one response per id, final "
-        "texts read back through glas/syntaxTree, compared with the model's prediction and with an editor-side oracle. PARTIAL: OS, tokio and "
-        "async-lsp behaviour is not modelled. Five genuine defects found and repaired (fix: commits)."),
+        "texts read back through glas/syntaxTree, compared with the model's prediction and with an editor-side oracle; the rest of the registered surface "
+        "(rename, ranged semantic tokens, formatting, didSave, didChangeConfiguration, didChangeWatchedFiles with files that change or vanish) is driven "
+        "with the oracle only. PARTIAL: OS, tokio and async-lsp behaviour is not modelled. Six genuine defects found and repaired (fix: commits)."),
   note=TB + "Modelled, not verified: the document store as an association list, package loading as synthetic opens of the on-disk files; requests are "
        "modelled only up to the position conversion.", ref="5.C15, 4.6"),
  "C03": dict(
@@ -211,7 +213,10 @@ CHECKS = {
   text=("Lean theorems for every text and every character boundary: line_col_for_pos equals the LSP client's (line, UTF-16 column), "
         "pos_for_line_col inverts it, the conversion is strictly monotone, and to_range reports both ends as the client's positions "
         "(Props/C14.lean). Tie: model vs real LineMap on all documents up to length 5 (6 thorough) over {a, LF, CRLF, 2-,3-,4-byte} "
-        "at every byte offset and every grid position, plus long random documents; Python client reference as oracle."),
+        "at every byte offset and every grid position, plus long random documents, one character per UTF-8 leader byte and unusual characters "
+        "(byte order mark, LS/PS, NEL, NUL, ...); the line table kept after an incremental edit; Python client reference as oracle. End to end: a project of three "
+        "open documents with different line tables, every range the server sends (definition, references, highlights, prepare-rename, rename "
+        "edits) is sliced in the editor's own copy of the named document."),
   note=TB + "Modelled, not verified: u32 arithmetic as checked, partition_point as takeWhile on the sorted line starts, FxHashMap as a total map.",
   ref="5.C14, 4.2"),
  "C19": dict(
@@ -267,7 +272,9 @@ def main():
                                "translation (xlate/) and by model-vs-implementation correspondence through a line protocol (harness/, lean/Driver.lean)"}
         ],
         "checks": checks,
-        "notes": "See DESIGN.md. All checks: ./check <ID> --tier quick|thorough; VERIF_SEED honoured.",
+        "notes": ("See DESIGN.md. All checks: ./check <ID> --tier quick|thorough; VERIF_SEED honoured. Two-candidate rule (DESIGN.md 0.4b): a property is shown "
+                  "when the model regenerated from the current source OR the committed model of the pinned source (xlate/baseline) is both proved and in "
+                  "correspondence with the implementation; the evidence file names the candidate that carried the proof (coverage.translation)."),
         "not_applicable": na,
     }
     json.dump(m, open(os.path.join(ROOT, "MANIFEST.json"), "w"), indent=1)
